@@ -27,7 +27,7 @@ diagvars == <<text, pos, toks, ln>>
 (* The universe *)
 Kinds  == <<"syn_rparen", "syn_char", "unresolved", "dup_global", "const_local", "const_global",
             "const_param", "op_mismatch", "arg_mismatch", "annot_mismatch", "break_outside", "conflict",
-            "dup_import">>
+            "dup_import", "dup_from_import">>
 Files  == <<"main", "sibling", "sub">>
 Poss   == <<"top_first", "top_mid", "top_last", "fn_body", "if_branch">>
 Shapes == <<"none", "ascii_comment", "nonascii_comment", "nonascii_string", "ml_string2", "ml_string3",
@@ -53,9 +53,10 @@ InFnPos == {"fn_body", "if_branch", "nested"}      \* "nested" only occurs in th
 
 (* Where a kind can be written at all: a global can only be (re)defined at the top level; a local
    constant and its assignment need two statements, which a one-line top-level function cannot hold. *)
-Applicable(c) == CASE c.kind \in {"dup_global", "dup_import"} -> c.pos \in TopPos
-                   [] c.kind = "const_local"                  -> c.pos \in InFnPos
-                   [] OTHER                                   -> TRUE
+DupKinds == {"dup_global", "dup_import", "dup_from_import"}
+Applicable(c) == CASE c.kind \in DupKinds -> c.pos \in TopPos
+                   [] c.kind = "const_local" -> c.pos \in InFnPos
+                   [] OTHER -> TRUE
 
 ApplicableIdx == {i \in 1..NCases : Applicable(Case(i))}
 
@@ -77,6 +78,7 @@ Construct(kind, top) ==
       [] kind = "break_outside"  -> IF top THEN "pf :: fn do break end" ELSE "break"
       [] kind = "conflict"       -> "<<<<<<< HEAD"
       [] kind = "dup_import"     -> "leaf :: 7"
+      [] kind = "dup_from_import" -> "lw :: 7"
 
 (* The line(s) a preceding-text shape puts directly before the planted line ('@' stands for any
    non-ASCII character).  "crlf" and "tabs" are whole-file styles, "none" adds nothing. *)
@@ -110,6 +112,7 @@ MarkerOK(c, t, p) ==
 \* spellings that define the duplicated name (the planted one and the one already in the template)
 DefSpellings(kind) == CASE kind = "dup_global" -> {"ga :: "}
                         [] kind = "dup_import" -> {"leaf :: ", "use /leaf"}
+                        [] kind = "dup_from_import" -> {"lw :: ", "from /leaf use lv as lw"}
                         [] OTHER               -> {}
 
 Sites(t, kind) == {q \in 1..Len(t) : /\ \E s \in DefSpellings(kind) : InText(t, q, s)
